@@ -89,12 +89,8 @@ Lemma check_set_spec : forall q ro c v,
   check_set q ro c v = None <->
   (valid_for c v = true /\ (ro = false \/ (c = CStr /\ q_str_ignores_ro q = true))).
 Proof.
-  intros q ro c v. destruct c; destruct ro; simpl.
-  all: try (destruct v; simpl;
-            repeat match goal with |- context [if ?b then _ else _] => destruct b eqn:? end;
-            simpl; split; [intros; try discriminate; split; auto; try reflexivity
-                          | intros [? [?|[? ?]]]; try discriminate; try reflexivity; try congruence]; fail).
-  all: destruct (q_str_ignores_ro q); simpl; destruct v; simpl; split; intros H;
-       try discriminate; try (destruct H as [? [?|[? ?]]]; try discriminate; try reflexivity);
-       try (split; auto; fail).
+  intros q ro c v.
+  destruct (q_str_ignores_ro q) eqn:Hq; destruct c; destruct ro; simpl; destruct v; simpl;
+    repeat match goal with |- context [if ?b then _ else _] => destruct b eqn:? end; simpl;
+    intuition (try discriminate; try congruence).
 Qed.
